@@ -130,48 +130,47 @@ Proof.
   - apply existsb_exists. now apply H2.
 Qed.
 
+Definition reflP {A} (eqb : A -> A -> bool) (x : A) : Prop := eqb x x = true.
+Definition symP {A} (eqb : A -> A -> bool) (x : A) : Prop :=
+  forall y, eqb x y = true -> eqb y x = true.
+Definition transP {A} (eqb : A -> A -> bool) (x : A) : Prop :=
+  forall y z, eqb x y = true -> eqb y z = true -> eqb x z = true.
+
 Section RelLists.
   Context {A : Type} (eqb : A -> A -> bool).
-  Definition reflP (x : A) : Prop := eqb x x = true.
-  Definition symP (x : A) : Prop := forall y, eqb x y = true -> eqb y x = true.
-  Definition transP (x : A) : Prop :=
-    forall y z, eqb x y = true -> eqb y z = true -> eqb x z = true.
+  Lemma leqb_refl_F l : Forall (reflP eqb) l -> reflP (leqb eqb) l.
+  Proof. unfold reflP. induction 1 as [|x xs Hx _ IH]; cbn; auto. now rewrite Hx, IH. Qed.
 
-  Lemma leqb_refl_F l : Forall reflP l -> leqb eqb l l = true.
-  Proof. induction 1 as [|x xs Hx _ IH]; cbn; auto. now rewrite Hx, IH. Qed.
-
-  Lemma leqb_sym_F l : Forall symP l -> forall l', leqb eqb l l' = true -> leqb eqb l' l = true.
+  Lemma leqb_sym_F l : Forall (symP eqb) l -> symP (leqb eqb) l.
   Proof.
-    induction 1 as [|x xs Hx _ IH]; intros [|y ys] E; cbn in *; try discriminate; auto.
+    unfold symP. induction 1 as [|x xs Hx _ IH]; intros [|y ys] E; cbn in *; try discriminate; auto.
     apply andb_true_iff in E as [E1 E2]. now rewrite (Hx _ E1), (IH _ E2).
   Qed.
 
-  Lemma leqb_trans_F l : Forall transP l ->
-    forall l' l'', leqb eqb l l' = true -> leqb eqb l' l'' = true -> leqb eqb l l'' = true.
+  Lemma leqb_trans_F l : Forall (transP eqb) l -> transP (leqb eqb) l.
   Proof.
-    induction 1 as [|x xs Hx _ IH]; intros [|y ys] [|z zs] E F; cbn in *; try discriminate; auto.
+    unfold transP. induction 1 as [|x xs Hx _ IH]; intros [|y ys] [|z zs] E F; cbn in *; try discriminate; auto.
     apply andb_true_iff in E as [E1 E2]. apply andb_true_iff in F as [F1 F2].
     now rewrite (Hx _ _ E1 F1), (IH _ _ E2 F2).
   Qed.
 
-  Lemma fs_eqb_refl_F l : Forall reflP l -> fs_eqb eqb l l = true.
+  Lemma fs_eqb_refl_F l : Forall (reflP eqb) l -> reflP (fs_eqb eqb) l.
   Proof.
-    intros H. rewrite Forall_forall in H. apply fs_eqb_true.
+    intros H. unfold reflP in *. rewrite Forall_forall in H. apply fs_eqb_true.
     split; intros p Hp; exists p; split; auto; now apply H.
   Qed.
 
-  Lemma fs_eqb_sym_F l : Forall symP l -> forall l', fs_eqb eqb l l' = true -> fs_eqb eqb l' l = true.
+  Lemma fs_eqb_sym_F l : Forall (symP eqb) l -> symP (fs_eqb eqb) l.
   Proof.
-    intros H l' E. rewrite Forall_forall in H. apply fs_eqb_true in E as [E1 E2].
+    intros H l' E. unfold symP in *. rewrite Forall_forall in H. apply fs_eqb_true in E as [E1 E2].
     apply fs_eqb_true. split.
-    - intros q Hq. destruct (E2 q Hq) as (p & Hp & Hpq). exists p. split; auto. now apply H.
-    - intros p Hp. destruct (E1 p Hp) as (q & Hq & Hpq). exists q. split; auto. now apply H.
+    - intros q Hq. destruct (E2 q Hq) as (p & Hp & Hpq). exists p. split; [exact Hp|]. now apply H.
+    - intros p Hp. destruct (E1 p Hp) as (q & Hq & Hpq). exists q. split; [exact Hq|]. now apply H.
   Qed.
 
-  Lemma fs_eqb_trans_F l : Forall transP l ->
-    forall l' l'', fs_eqb eqb l l' = true -> fs_eqb eqb l' l'' = true -> fs_eqb eqb l l'' = true.
+  Lemma fs_eqb_trans_F l : Forall (transP eqb) l -> transP (fs_eqb eqb) l.
   Proof.
-    intros H l' l'' E F. rewrite Forall_forall in H.
+    intros H l' l'' E F. unfold transP in *. rewrite Forall_forall in H.
     apply fs_eqb_true in E as [E1 E2]. apply fs_eqb_true in F as [F1 F2].
     apply fs_eqb_true. split.
     - intros p Hp. destruct (E1 p Hp) as (q & Hq & Hpq). destruct (F1 q Hq) as (r & Hr & Hqr).
@@ -210,8 +209,7 @@ Proof. cbn [ikey_eqb]. revert y. induction x as [|p ps IH]; intros [|q qs]; cbn;
 Lemma ikey_eqb_frozenset x y : ikey_eqb (IFrozenset x) (IFrozenset y) = fs_eqb ikey_eqb x y.
 Proof.
   cbn [ikey_eqb]. unfold fs_eqb. f_equal.
-  - induction x as [|p ps IH]; cbn; auto.
-  - induction y as [|q qs IH]; cbn; auto.
+  induction x as [|p ps IH]; cbn; auto. rewrite IH. reflexivity.
 Qed.
 
 Lemma zlist_eqb_spec a b : list_eqb Z.eqb a b = true <-> a = b.
@@ -225,11 +223,11 @@ Proof. now apply str_eqb_spec. Qed.
 
 Theorem ikey_eqb_refl : forall a, ikey_eqb a a = true.
 Proof.
-  induction a as [ |b|z|f|r i|s|b| |l IH|l IH] using iconst_ind'; cbn [ikey_eqb]; auto.
+  induction a as [ |b|z|f|r i|s|b| |l IH|l IH] using iconst_ind'; try reflexivity.
   - now destruct b.
   - apply Z.eqb_refl.
   - apply float_key_eqb_refl.
-  - now rewrite !float_key_eqb_refl.
+  - cbn [ikey_eqb]. now rewrite !float_key_eqb_refl.
   - apply str_eqb_refl.
   - apply zlist_eqb_refl.
   - rewrite ikey_eqb_tuple. now apply leqb_refl_F.
@@ -269,3 +267,501 @@ Qed.
 
 Corollary ikey_eqb_sym_eq a b : ikey_eqb a b = ikey_eqb b a.
 Proof. apply eq_true_iff_eq. split; apply ikey_eqb_sym. Qed.
+
+(* ------------------------------------------------------------------ *)
+(* 2. key_eqb and cd_eqb are equivalence relations                      *)
+
+(* the fields without constants are compared with decidable Leibniz equality *)
+Lemma option_eqb_spec {A} (eqb : A -> A -> bool) :
+  (forall x y, eqb x y = true <-> x = y) ->
+  forall a b, option_eqb eqb a b = true <-> a = b.
+Proof.
+  intros H [x|] [y|]; cbn; split; intros E; try discriminate; auto.
+  - apply H in E. now subst.
+  - inversion E; subst. now apply H.
+Qed.
+
+Lemma strlist_eqb_spec a b : list_eqb str_eqb a b = true <-> a = b.
+Proof. apply list_eqb_spec, str_eqb_spec. Qed.
+Lemma ostr_eqb_spec a b : option_eqb str_eqb a b = true <-> a = b.
+Proof. apply option_eqb_spec, str_eqb_spec. Qed.
+Lemma oz_eqb_spec a b : option_eqb Z.eqb a b = true <-> a = b.
+Proof. apply option_eqb_spec. intros; apply Z.eqb_eq. Qed.
+Lemma bool_eqb_spec a b : Bool.eqb a b = true <-> a = b.
+Proof. apply Bool.eqb_true_iff. Qed.
+
+Lemma args_eqb_spec a b : args_eqb a b = true <-> a = b.
+Proof.
+  destruct a as [a1 a2 a3 a4 a5], b as [b1 b2 b3 b4 b5]. unfold args_eqb. cbn.
+  rewrite !andb_true_iff, !strlist_eqb_spec, !ostr_eqb_spec.
+  split.
+  - intros [[[[-> ->] ->] ->] ->]. reflexivity.
+  - intros E. inversion E. auto.
+Qed.
+
+Lemma fntype_eqb_spec a b : fntype_eqb a b = true <-> a = b.
+Proof. destruct a, b; cbn; split; intros E; try discriminate; auto. Qed.
+
+Lemma function_eqb_spec a b : function_eqb a b = true <-> a = b.
+Proof.
+  destruct a as [a1 a2 a3], b as [b1 b2 b3]. unfold function_eqb. cbn.
+  rewrite !andb_true_iff, args_eqb_spec, ostr_eqb_spec, (option_eqb_spec _ fntype_eqb_spec).
+  split.
+  - intros [[-> ->] ->]. reflexivity.
+  - intros E. inversion E. auto.
+Qed.
+
+Lemma addline_eqb_spec a b : addline_eqb a b = true <-> a = b.
+Proof.
+  destruct a as [a1 a2], b as [b1 b2]. unfold addline_eqb. cbn.
+  rewrite !andb_true_iff, oz_eqb_spec, zlist_eqb_spec.
+  split.
+  - intros [-> ->]. reflexivity.
+  - intros E. inversion E. auto.
+Qed.
+
+Section DataRel.
+  Context {C : Type} (ceqb : C -> C -> bool).
+
+  Lemma instr_eqb_true a b :
+    instr_eqb ceqb a b = true <->
+    i_name a = i_name b /\ arg_eqb ceqb (i_arg a) (i_arg b) = true /\ i_nargs a = i_nargs b
+    /\ i_line a = i_line b /\ i_lineoffs a = i_lineoffs b.
+  Proof.
+    unfold instr_eqb. rewrite !andb_true_iff, Z.eqb_eq, !oz_eqb_spec, zlist_eqb_spec. tauto.
+  Qed.
+
+  Lemma cd_eqb_with_true a b :
+    cd_eqb_with ceqb a b = true <->
+    leqb (leqb (instr_eqb ceqb)) (cd_blocks a) (cd_blocks b) = true
+    /\ cd_filename a = cd_filename b /\ cd_firstline a = cd_firstline b
+    /\ cd_name a = cd_name b /\ cd_stacksize a = cd_stacksize b /\ cd_type a = cd_type b
+    /\ cd_freevars a = cd_freevars b /\ cd_future_annotations a = cd_future_annotations b
+    /\ cd_nested a = cd_nested b /\ cd_addline a = cd_addline b
+    /\ leqb (arg_eqb ceqb) (cd_addargs a) (cd_addargs b) = true.
+  Proof.
+    unfold cd_eqb_with.
+    rewrite !andb_true_iff, !str_eqb_spec, !Z.eqb_eq, strlist_eqb_spec, !bool_eqb_spec,
+      (option_eqb_spec _ function_eqb_spec), (option_eqb_spec _ addline_eqb_spec). tauto.
+  Qed.
+
+  (* operands *)
+  Lemma arg_eqb_refl a : argP (reflP ceqb) a -> reflP (arg_eqb ceqb) a.
+  Proof.
+    unfold reflP. destruct a; cbn; intros H;
+      rewrite ?Z.eqb_refl, ?str_eqb_refl, ?(proj2 (oz_eqb_spec _ _) eq_refl), ?H; auto.
+    now destruct relative.
+  Qed.
+
+  Lemma arg_eqb_sym a : argP (symP ceqb) a -> symP (arg_eqb ceqb) a.
+  Proof.
+    unfold symP. destruct a; cbn [argP]; intros H [ | | | | | | | ] E; cbn in E |- *;
+      try discriminate E;
+      rewrite ?andb_true_iff, ?Z.eqb_eq, ?str_eqb_spec, ?oz_eqb_spec, ?bool_eqb_spec in *;
+      intuition (subst; auto).
+  Qed.
+
+  Lemma arg_eqb_trans a : argP (transP ceqb) a -> transP (arg_eqb ceqb) a.
+  Proof.
+    unfold transP. destruct a; cbn [argP]; intros H [ | | | | | | | ] [ | | | | | | | ] E F;
+      cbn in E, F |- *; try discriminate E; try discriminate F;
+      rewrite ?andb_true_iff, ?Z.eqb_eq, ?str_eqb_spec, ?oz_eqb_spec, ?bool_eqb_spec in *;
+      intuition (subst; eauto).
+  Qed.
+
+  (* instructions *)
+  Lemma instr_eqb_refl i : instrP (reflP ceqb) i -> reflP (instr_eqb ceqb) i.
+  Proof.
+    intros H. unfold reflP. apply instr_eqb_true. repeat split; auto. now apply arg_eqb_refl.
+  Qed.
+
+  Lemma instr_eqb_sym i : instrP (symP ceqb) i -> symP (instr_eqb ceqb) i.
+  Proof.
+    intros H j E. apply instr_eqb_true in E as (E1 & E2 & E3 & E4 & E5).
+    apply instr_eqb_true. repeat split; auto. now apply arg_eqb_sym.
+  Qed.
+
+  Lemma instr_eqb_trans i : instrP (transP ceqb) i -> transP (instr_eqb ceqb) i.
+  Proof.
+    intros H j k E F. apply instr_eqb_true in E as (E1 & E2 & E3 & E4 & E5).
+    apply instr_eqb_true in F as (F1 & F2 & F3 & F4 & F5).
+    apply instr_eqb_true. repeat split; try congruence. eapply arg_eqb_trans; eauto.
+  Qed.
+
+  (* blocks *)
+  Lemma block_eqb_refl b : Forall (instrP (reflP ceqb)) b -> reflP (leqb (instr_eqb ceqb)) b.
+  Proof. intros H. apply leqb_refl_F. eapply Forall_impl; [|exact H]. apply instr_eqb_refl. Qed.
+
+  Lemma block_eqb_sym b : Forall (instrP (symP ceqb)) b -> symP (leqb (instr_eqb ceqb)) b.
+  Proof. intros H. apply leqb_sym_F. eapply Forall_impl; [|exact H]. apply instr_eqb_sym. Qed.
+
+  Lemma block_eqb_trans b : Forall (instrP (transP ceqb)) b -> transP (leqb (instr_eqb ceqb)) b.
+  Proof. intros H. apply leqb_trans_F. eapply Forall_impl; [|exact H]. apply instr_eqb_trans. Qed.
+
+  (* CodeData *)
+  Lemma cd_eqb_with_refl cd : cdP (reflP ceqb) cd -> reflP (cd_eqb_with ceqb) cd.
+  Proof.
+    intros [HB HA]. unfold reflP. apply cd_eqb_with_true. repeat split; auto.
+    - apply leqb_refl_F. eapply Forall_impl; [|exact HB]. apply block_eqb_refl.
+    - apply leqb_refl_F. eapply Forall_impl; [|exact HA]. apply arg_eqb_refl.
+  Qed.
+
+  Lemma cd_eqb_with_sym cd : cdP (symP ceqb) cd -> symP (cd_eqb_with ceqb) cd.
+  Proof.
+    intros [HB HA] cd' E.
+    apply cd_eqb_with_true in E as (E1 & E2 & E3 & E4 & E5 & E6 & E7 & E8 & E9 & E10 & E11).
+    apply cd_eqb_with_true. repeat split; auto.
+    - revert E1. apply leqb_sym_F. eapply Forall_impl; [|exact HB]. apply block_eqb_sym.
+    - revert E11. apply leqb_sym_F. eapply Forall_impl; [|exact HA]. apply arg_eqb_sym.
+  Qed.
+
+  Lemma cd_eqb_with_trans cd : cdP (transP ceqb) cd -> transP (cd_eqb_with ceqb) cd.
+  Proof.
+    intros [HB HA] cd' cd'' E F.
+    apply cd_eqb_with_true in E as (E1 & E2 & E3 & E4 & E5 & E6 & E7 & E8 & E9 & E10 & E11).
+    apply cd_eqb_with_true in F as (F1 & F2 & F3 & F4 & F5 & F6 & F7 & F8 & F9 & F10 & F11).
+    apply cd_eqb_with_true. repeat split; try congruence.
+    - revert E1 F1. apply leqb_trans_F. eapply Forall_impl; [|exact HB]. apply block_eqb_trans.
+    - revert E11 F11. apply leqb_trans_F. eapply Forall_impl; [|exact HA]. apply arg_eqb_trans.
+  Qed.
+End DataRel.
+
+Theorem key_eqb_refl : forall a, key_eqb a a = true.
+Proof.
+  induction a as [i|cd IH] using const_ind'; cbn [key_eqb].
+  - apply ikey_eqb_refl.
+  - now apply cd_eqb_with_refl.
+Qed.
+
+Theorem key_eqb_sym : forall a b, key_eqb a b = true -> key_eqb b a = true.
+Proof.
+  induction a as [i|cd IH] using const_ind'; intros [j|cd'] E; cbn [key_eqb] in *;
+    try discriminate E.
+  - now apply ikey_eqb_sym.
+  - now apply (cd_eqb_with_sym key_eqb cd IH).
+Qed.
+
+Theorem key_eqb_trans : forall a b c,
+  key_eqb a b = true -> key_eqb b c = true -> key_eqb a c = true.
+Proof.
+  induction a as [i|cd IH] using const_ind'; intros [j|cd'] [k|cd''] E F; cbn [key_eqb] in *;
+    try discriminate E; try discriminate F.
+  - eapply ikey_eqb_trans; eauto.
+  - exact (cd_eqb_with_trans key_eqb cd IH cd' cd'' E F).
+Qed.
+
+Corollary key_eqb_sym_eq a b : key_eqb a b = key_eqb b a.
+Proof. apply eq_true_iff_eq. split; apply key_eqb_sym. Qed.
+
+Theorem cd_eqb_refl : forall a, cd_eqb a a = true.
+Proof. intros a. apply (cd_eqb_with_refl key_eqb). apply cdP_all. exact key_eqb_refl. Qed.
+
+Theorem cd_eqb_sym : forall a b, cd_eqb a b = true -> cd_eqb b a = true.
+Proof. intros a. apply (cd_eqb_with_sym key_eqb). apply cdP_all. exact key_eqb_sym. Qed.
+
+Theorem cd_eqb_trans : forall a b c, cd_eqb a b = true -> cd_eqb b c = true -> cd_eqb a c = true.
+Proof. intros a. apply (cd_eqb_with_trans key_eqb). apply cdP_all. exact key_eqb_trans. Qed.
+
+Corollary cd_eqb_sym_eq a b : cd_eqb a b = cd_eqb b a.
+Proof. apply eq_true_iff_eq. split; apply cd_eqb_sym. Qed.
+
+(* ------------------------------------------------------------------ *)
+(* 4. Discrimination                                                    *)
+
+Lemma ikey_int_bool z b : ikey_eqb (IInt z) (IBool b) = false.
+Proof. reflexivity. Qed.
+Lemma ikey_bool_int z b : ikey_eqb (IBool b) (IInt z) = false.
+Proof. reflexivity. Qed.
+Lemma ikey_int_float z f : ikey_eqb (IInt z) (IFloat f) = false.
+Proof. reflexivity. Qed.
+Lemma ikey_float_int z f : ikey_eqb (IFloat f) (IInt z) = false.
+Proof. reflexivity. Qed.
+Lemma ikey_bool_float b f : ikey_eqb (IBool b) (IFloat f) = false.
+Proof. reflexivity. Qed.
+Lemma ikey_float_bool b f : ikey_eqb (IFloat f) (IBool b) = false.
+Proof. reflexivity. Qed.
+Lemma ikey_float_complex f r i : ikey_eqb (IFloat f) (IComplex r i) = false.
+Proof. reflexivity. Qed.
+Lemma ikey_str_bytes s t : ikey_eqb (IStr s) (IBytes t) = false.
+Proof. reflexivity. Qed.
+Lemma ikey_bytes_str s t : ikey_eqb (IBytes s) (IStr t) = false.
+Proof. reflexivity. Qed.
+Lemma ikey_tuple_frozenset l1 l2 : ikey_eqb (ITuple l1) (IFrozenset l2) = false.
+Proof. reflexivity. Qed.
+Lemma ikey_frozenset_tuple l1 l2 : ikey_eqb (IFrozenset l1) (ITuple l2) = false.
+Proof. reflexivity. Qed.
+Lemma ikey_none_ellipsis : ikey_eqb INone IEllipsis = false.
+Proof. reflexivity. Qed.
+
+(* constants built with different constructors are never equal *)
+Definition iconst_tag (c : iconst) : Z :=
+  match c with
+  | INone => 0 | IBool _ => 1 | IInt _ => 2 | IFloat _ => 3 | IComplex _ _ => 4
+  | IStr _ => 5 | IBytes _ => 6 | IEllipsis => 7 | ITuple _ => 8 | IFrozenset _ => 9
+  end.
+Lemma ikey_eqb_tag a b : ikey_eqb a b = true -> iconst_tag a = iconst_tag b.
+Proof. destruct a, b; intros E; try discriminate E; reflexivity. Qed.
+
+(* 0.0 and -0.0 *)
+Lemma ikey_pos_neg_zero : ikey_eqb (IFloat 0) (IFloat 9223372036854775808) = false.
+Proof. vm_compute. reflexivity. Qed.
+Lemma ikey_neg_zero x : float_is_neg_zero x = true -> ikey_eqb (IFloat 0) (IFloat x) = false.
+Proof. unfold float_is_neg_zero. intros E. apply Z.eqb_eq in E. subst. apply ikey_pos_neg_zero. Qed.
+
+(* on the scalar constants equality is equality of the value *)
+Lemma ikey_int_inv x y : ikey_eqb (IInt x) (IInt y) = true <-> x = y.
+Proof. cbn. apply Z.eqb_eq. Qed.
+Lemma ikey_bool_inv x y : ikey_eqb (IBool x) (IBool y) = true <-> x = y.
+Proof. cbn. apply bool_eqb_spec. Qed.
+Lemma ikey_str_inv x y : ikey_eqb (IStr x) (IStr y) = true <-> x = y.
+Proof. cbn [ikey_eqb]. apply str_eqb_spec. Qed.
+Lemma ikey_bytes_inv x y : ikey_eqb (IBytes x) (IBytes y) = true <-> x = y.
+Proof. cbn [ikey_eqb]. apply zlist_eqb_spec. Qed.
+
+(* floats: equal iff both NaN or the same pattern *)
+Lemma float_key_eqb_true x y :
+  float_key_eqb x y = true <-> (float_is_nan x = true /\ float_is_nan y = true) \/ x = y.
+Proof. unfold float_key_eqb. now rewrite orb_true_iff, andb_true_iff, Z.eqb_eq. Qed.
+Lemma ikey_float_inv x y :
+  ikey_eqb (IFloat x) (IFloat y) = true <->
+  (float_is_nan x = true /\ float_is_nan y = true) \/ x = y.
+Proof. cbn [ikey_eqb]. apply float_key_eqb_true. Qed.
+Lemma ikey_float_not_nan x y :
+  float_is_nan x = false -> (ikey_eqb (IFloat x) (IFloat y) = true <-> x = y).
+Proof.
+  intros N. rewrite ikey_float_inv. split; [|now right].
+  intros [[E _]|E]; [congruence|exact E].
+Qed.
+Lemma ikey_float_neq x y :
+  float_is_nan x = false -> x <> y -> ikey_eqb (IFloat x) (IFloat y) = false.
+Proof.
+  intros N D. apply not_true_iff_false. intros E. now apply (ikey_float_not_nan x y N) in E.
+Qed.
+
+(* complex: both parts have to agree *)
+Lemma ikey_complex_inv r1 i1 r2 i2 :
+  ikey_eqb (IComplex r1 i1) (IComplex r2 i2) = true <->
+  float_key_eqb r1 r2 = true /\ float_key_eqb i1 i2 = true.
+Proof. cbn [ikey_eqb]. apply andb_true_iff. Qed.
+Lemma ikey_complex_re r1 i1 r2 i2 :
+  float_key_eqb r1 r2 = false -> ikey_eqb (IComplex r1 i1) (IComplex r2 i2) = false.
+Proof. intros E. cbn [ikey_eqb]. now rewrite E. Qed.
+Lemma ikey_complex_im r1 i1 r2 i2 :
+  float_key_eqb i1 i2 = false -> ikey_eqb (IComplex r1 i1) (IComplex r2 i2) = false.
+Proof. intros E. cbn [ikey_eqb]. rewrite E. apply andb_false_r. Qed.
+Lemma ikey_complex_signed_zero :
+  ikey_eqb (IComplex 0 0) (IComplex 0 9223372036854775808) = false
+  /\ ikey_eqb (IComplex 0 0) (IComplex 9223372036854775808 0) = false.
+Proof. split; vm_compute; reflexivity. Qed.
+
+(* tuples: same length and pairwise equal, so a difference anywhere inside shows *)
+Lemma leqb_Forall2 {A} (eqb : A -> A -> bool) l1 l2 :
+  leqb eqb l1 l2 = true <-> Forall2 (fun x y => eqb x y = true) l1 l2.
+Proof.
+  revert l2. induction l1 as [|x xs IH]; intros [|y ys]; cbn; split; intros E;
+    try discriminate E; try constructor; try (now inversion E).
+  - apply andb_true_iff in E. tauto.
+  - apply IH. apply andb_true_iff in E. tauto.
+  - inversion E; subst. apply andb_true_iff. split; auto. now apply IH.
+Qed.
+
+Lemma ikey_tuple_inv l1 l2 :
+  ikey_eqb (ITuple l1) (ITuple l2) = true <-> Forall2 (fun x y => ikey_eqb x y = true) l1 l2.
+Proof. rewrite ikey_eqb_tuple. apply leqb_Forall2. Qed.
+
+Lemma ikey_tuple_length l1 l2 :
+  ikey_eqb (ITuple l1) (ITuple l2) = true -> length l1 = length l2.
+Proof. intros E. apply ikey_tuple_inv in E. induction E; cbn; congruence. Qed.
+
+Lemma ikey_tuple_nth l1 l2 n x y :
+  ikey_eqb (ITuple l1) (ITuple l2) = true ->
+  nth_error l1 n = Some x -> nth_error l2 n = Some y -> ikey_eqb x y = true.
+Proof.
+  intros E. apply ikey_tuple_inv in E. revert n.
+  induction E as [|a b l l' Hab _ IH]; intros [|n] H1 H2; cbn in *; try discriminate.
+  - now inversion H1; inversion H2; subst.
+  - eauto.
+Qed.
+
+Lemma ikey_tuple_diff l1 l2 n x y :
+  nth_error l1 n = Some x -> nth_error l2 n = Some y -> ikey_eqb x y = false ->
+  ikey_eqb (ITuple l1) (ITuple l2) = false.
+Proof.
+  intros H1 H2 D. apply not_true_iff_false. intros E.
+  rewrite (ikey_tuple_nth _ _ _ _ _ E H1 H2) in D. discriminate.
+Qed.
+
+(* frozensets: mutual inclusion up to ikey_eqb *)
+Lemma ikey_frozenset_inv l1 l2 :
+  ikey_eqb (IFrozenset l1) (IFrozenset l2) = true <->
+  (forall p, In p l1 -> exists q, In q l2 /\ ikey_eqb p q = true) /\
+  (forall q, In q l2 -> exists p, In p l1 /\ ikey_eqb p q = true).
+Proof. rewrite ikey_eqb_frozenset. apply fs_eqb_true. Qed.
+
+(* nested code is never equal to an inner constant *)
+Lemma key_inner_code i cd : key_eqb (KInner i) (KCode cd) = false.
+Proof. reflexivity. Qed.
+Lemma key_code_inner i cd : key_eqb (KCode cd) (KInner i) = false.
+Proof. reflexivity. Qed.
+
+(* ------------------------------------------------------------------ *)
+(* 3. The model against the reference partition of Spec/ConstKey.v      *)
+
+(* the two NaN tests: masks in the model, exponent / mantissa fields in the reference *)
+Lemma land_shifted_mask b m : Z.land b (Z.shiftl m 52) = Z.shiftl (Z.land (Z.shiftr b 52) m) 52.
+Proof.
+  apply Z.bits_inj'. intros n Hn. rewrite Z.land_spec. destruct (Z.ltb_spec n 52) as [L|L].
+  - rewrite !Z.shiftl_spec_low by lia. apply andb_false_r.
+  - rewrite !Z.shiftl_spec by lia. rewrite Z.land_spec, Z.shiftr_spec by lia.
+    replace (n - 52 + 52) with n by lia. reflexivity.
+Qed.
+
+Lemma exponent_test b :
+  (Z.land b (Z.shiftl (Z.ones 11) 52) =? Z.shiftl (Z.ones 11) 52) = (f64_exponent b =? 2047).
+Proof.
+  unfold f64_exponent. rewrite land_shifted_mask, Z.land_ones, Z.shiftr_div_pow2 by lia.
+  set (X := (b / 2 ^ 52) mod 2 ^ 11). rewrite !Z.shiftl_mul_pow2 by lia.
+  change (Z.ones 11) with 2047.
+  assert (NZ : 2 ^ 52 <> 0) by (apply Z.pow_nonzero; lia).
+  apply eq_true_iff_eq. rewrite !Z.eqb_eq. split; intros E.
+  - now apply Z.mul_cancel_r in E.
+  - now rewrite E.
+Qed.
+
+Lemma f64_is_nan_model b : f64_is_nan b = float_is_nan b.
+Proof.
+  unfold f64_is_nan, float_is_nan.
+  change 9218868437227405312 with (Z.shiftl (Z.ones 11) 52).
+  change 4503599627370495 with (Z.ones 52).
+  rewrite exponent_test, Z.land_ones by lia. reflexivity.
+Qed.
+
+Lemma qnan_is_nan : float_is_nan QNAN = true.
+Proof. vm_compute. reflexivity. Qed.
+
+Lemma float_key_eqb_canon x y : float_key_eqb x y = (nancanon_bits x =? nancanon_bits y).
+Proof.
+  unfold nancanon_bits, float_key_eqb. rewrite !f64_is_nan_model.
+  pose proof qnan_is_nan as Q.
+  destruct (float_is_nan x) eqn:Nx, (float_is_nan y) eqn:Ny; cbn [andb orb].
+  - symmetry. apply Z.eqb_refl.
+  - destruct (Z.eqb_spec x y), (Z.eqb_spec QNAN y); subst; congruence.
+  - destruct (Z.eqb_spec x y), (Z.eqb_spec x QNAN); subst; congruence.
+  - reflexivity.
+Qed.
+
+Lemma zs_eqb_list_eqb a b : zs_eqb a b = list_eqb Z.eqb a b.
+Proof.
+  revert b. induction a as [|x xs IH]; intros [|y ys]; cbn; auto.
+  rewrite IH. now destruct (x =? y).
+Qed.
+
+(* kt_eqb on tuple and frozenset keys *)
+Lemma kt_eqb_tuple c1 c2 : kt_eqb (KT TAG_TUPLE [] c1) (KT TAG_TUPLE [] c2) = leqb kt_eqb c1 c2.
+Proof.
+  cbn [kt_eqb]. change (TAG_TUPLE =? TAG_TUPLE) with true.
+  change (TAG_TUPLE =? TAG_FROZENSET) with false. cbn [zs_eqb andb].
+  revert c2. induction c1 as [|x xs IH]; intros [|y ys]; cbn; auto.
+Qed.
+
+Lemma kt_eqb_frozenset c1 c2 :
+  kt_eqb (KT TAG_FROZENSET [] c1) (KT TAG_FROZENSET [] c2) = fs_eqb kt_eqb c1 c2.
+Proof.
+  cbn [kt_eqb]. change (TAG_FROZENSET =? TAG_FROZENSET) with true. cbn [zs_eqb andb].
+  reflexivity.
+Qed.
+
+Section MapExt.
+  Context {A B : Type} (f : A -> B) (e : B -> B -> bool).
+  Lemma leqb_map x y : leqb e (map f x) (map f y) = leqb (fun a b => e (f a) (f b)) x y.
+  Proof. revert y. induction x as [|a x IH]; intros [|b y]; cbn; auto. now rewrite IH. Qed.
+
+  Lemma existsb_map_l (g : B -> bool) y : existsb g (map f y) = existsb (fun q => g (f q)) y.
+  Proof. induction y as [|b y IH]; cbn; auto. now rewrite IH. Qed.
+
+  Lemma forallb_map_l (g : B -> bool) y : forallb g (map f y) = forallb (fun q => g (f q)) y.
+  Proof. induction y as [|b y IH]; cbn; auto. now rewrite IH. Qed.
+
+  Lemma fs_eqb_map x y : fs_eqb e (map f x) (map f y) = fs_eqb (fun a b => e (f a) (f b)) x y.
+  Proof.
+    unfold fs_eqb. rewrite !forallb_map_l. f_equal.
+    - apply forallb_ext. intros a. apply existsb_map_l.
+    - apply forallb_ext. intros b. apply (existsb_map_l (fun p => e p (f b))).
+  Qed.
+End MapExt.
+
+Section ExtF.
+  Context {A : Type} (e1 e2 : A -> A -> bool).
+  Definition extP (a : A) : Prop := forall b, e1 a b = e2 a b.
+
+  Lemma leqb_ext_F x : Forall extP x -> forall y, leqb e1 x y = leqb e2 x y.
+  Proof.
+    induction 1 as [|a x Ha _ IH]; intros [|b y]; cbn; auto. now rewrite Ha, IH.
+  Qed.
+
+  Lemma fs_eqb_ext_F x : Forall extP x -> forall y, fs_eqb e1 x y = fs_eqb e2 x y.
+  Proof.
+    intros H y. rewrite Forall_forall in H. apply eq_true_iff_eq. rewrite !fs_eqb_true.
+    split; intros [H1 H2]; split.
+    - intros p Hp. destruct (H1 p Hp) as (q & Hq & E). exists q. split; auto. now rewrite <- (H p Hp).
+    - intros q Hq. destruct (H2 q Hq) as (p & Hp & E). exists p. split; auto. now rewrite <- (H p Hp).
+    - intros p Hp. destruct (H1 p Hp) as (q & Hq & E). exists q. split; auto. now rewrite (H p Hp).
+    - intros q Hq. destruct (H2 q Hq) as (p & Hp & E). exists p. split; auto. now rewrite (H p Hp).
+  Qed.
+End ExtF.
+
+(* The model distinguishes exactly what _PyCode_ConstantKey distinguishes, except that it
+   identifies all NaN patterns. *)
+Theorem ikey_eqb_pykey : forall a b, ikey_eqb a b = pykey_eqb (nancanon a) (nancanon b).
+Proof.
+  unfold pykey_eqb.
+  induction a as [ |x|x|x|r i|x|x| |l IH|l IH] using iconst_ind';
+    intros [ |y|y|y|r' i'|y|y| |l'|l']; try reflexivity.
+  - destruct x, y; reflexivity.
+  - cbn. now destruct (x =? y).
+  - cbn [ikey_eqb nancanon pykey kt_eqb zs_eqb]. rewrite float_key_eqb_canon.
+    change (TAG_FLOAT =? TAG_FLOAT) with true. change (TAG_FLOAT =? TAG_FROZENSET) with false.
+    now destruct (_ =? _).
+  - cbn [ikey_eqb nancanon pykey kt_eqb zs_eqb]. rewrite !float_key_eqb_canon.
+    change (TAG_COMPLEX =? TAG_COMPLEX) with true.
+    change (TAG_COMPLEX =? TAG_FROZENSET) with false.
+    destruct (nancanon_bits r =? nancanon_bits r'), (nancanon_bits i =? nancanon_bits i');
+      reflexivity.
+  - cbn [ikey_eqb nancanon pykey kt_eqb]. rewrite zs_eqb_list_eqb.
+    change (TAG_STR =? TAG_STR) with true. change (TAG_STR =? TAG_FROZENSET) with false.
+    cbn [andb]. unfold str_eqb. now rewrite andb_true_r.
+  - cbn [ikey_eqb nancanon pykey kt_eqb]. rewrite zs_eqb_list_eqb.
+    change (TAG_BYTES =? TAG_BYTES) with true. change (TAG_BYTES =? TAG_FROZENSET) with false.
+    cbn [andb]. now rewrite andb_true_r.
+  - rewrite ikey_eqb_tuple. cbn [nancanon pykey]. rewrite kt_eqb_tuple, !map_map, leqb_map.
+    apply leqb_ext_F. exact IH.
+  - rewrite ikey_eqb_frozenset. cbn [nancanon pykey].
+    rewrite kt_eqb_frozenset, !map_map, fs_eqb_map.
+    apply fs_eqb_ext_F. exact IH.
+Qed.
+
+(* without NaNs the model is the reference partition *)
+Fixpoint nan_free (c : iconst) : bool :=
+  match c with
+  | IFloat x => negb (float_is_nan x)
+  | IComplex r i => negb (float_is_nan r) && negb (float_is_nan i)
+  | ITuple l | IFrozenset l => forallb nan_free l
+  | _ => true
+  end.
+
+Lemma nancanon_nan_free : forall a, nan_free a = true -> nancanon a = a.
+Proof.
+  induction a as [ |x|x|x|r i|x|x| |l IH|l IH] using iconst_ind'; cbn [nan_free nancanon];
+    intros H; auto.
+  - unfold nancanon_bits. rewrite f64_is_nan_model. now destruct (float_is_nan x).
+  - unfold nancanon_bits. rewrite !f64_is_nan_model.
+    now destruct (float_is_nan r), (float_is_nan i).
+  - f_equal. rewrite forallb_forall in H. rewrite Forall_forall in IH.
+    rewrite <- (map_id l) at 2. apply map_ext_in. intros a Ha. apply IH; auto.
+  - f_equal. rewrite forallb_forall in H. rewrite Forall_forall in IH.
+    rewrite <- (map_id l) at 2. apply map_ext_in. intros a Ha. apply IH; auto.
+Qed.
+
+Corollary ikey_eqb_pykey_nan_free a b :
+  nan_free a = true -> nan_free b = true -> ikey_eqb a b = pykey_eqb a b.
+Proof. intros Ha Hb. now rewrite ikey_eqb_pykey, !nancanon_nan_free. Qed.
